@@ -271,6 +271,8 @@ pub struct SinkStats {
 	pub zero_fired: u64,
 	pub flushes: u64,
 	pub budget_exhausted: bool,
+	/// bytes accepted at the moment the first hard error / zero-accept fired
+	pub len_at_first_hard_fault: Option<usize>,
 }
 
 pub struct SinkState {
@@ -405,6 +407,7 @@ impl SinkState {
 				}
 				SinkFaultKind::Hard(k) => {
 					self.stats.hard_fired += 1;
+					self.stats.len_at_first_hard_fault.get_or_insert(at_offset);
 					if self.stay_broken {
 						self.broken = true;
 					}
@@ -413,6 +416,7 @@ impl SinkState {
 				}
 				SinkFaultKind::Zero => {
 					self.stats.zero_fired += 1;
+					self.stats.len_at_first_hard_fault.get_or_insert(at_offset);
 					record(self, SinkCallResult::Zero);
 					return Ok(0);
 				}
